@@ -149,6 +149,61 @@ inline void violation(const char *props, const char *monitor, const std::string 
   _exit(2);
 }
 
+// ---------------------------------------------------------------- storage of the objects under test
+// malloc for ordinary types (the object ends where the block ends: an overflow of the inline storage meets the redzone). For containers of
+// over-aligned elements (`vary`: element alignment beyond malloc's): an address aligned for the type whose residue modulo twice that alignment alternates - an object relocated by
+// bytes lands on an address that is right for its type and different modulo any larger power of two; the slack around it is poisoned.
+#if defined(__SANITIZE_ADDRESS__)
+#define VF_ASAN_POISON 1
+#elif defined(__has_feature)
+#if __has_feature(address_sanitizer)
+#define VF_ASAN_POISON 1
+#endif
+#endif
+#ifdef VF_ASAN_POISON
+extern "C" void __asan_poison_memory_region(void const volatile *, size_t);
+extern "C" void __asan_unpoison_memory_region(void const volatile *, size_t);
+#endif
+struct ObjBlock { void *obj, *raw; size_t total; };
+static ObjBlock g_objblocks[64];
+inline void *obj_alloc(size_t size, size_t align, bool vary) {
+  MonScope m;
+  if (!vary) return malloc(size);
+  if (align < 16) align = 16;
+  static unsigned flip = 0;
+  const size_t a2 = 2 * align, total = size + 2 * a2;
+  char *raw = static_cast<char *>(malloc(total));
+  uintptr_t p = (reinterpret_cast<uintptr_t>(raw) + a2 - 1) / a2 * a2;
+  if (flip++ & 1) p += align;
+  for (ObjBlock &b : g_objblocks)
+    if (!b.obj) {
+      b.obj = reinterpret_cast<void *>(p); b.raw = raw; b.total = total;
+#ifdef VF_ASAN_POISON
+      __asan_poison_memory_region(raw, p - reinterpret_cast<uintptr_t>(raw));
+      __asan_poison_memory_region(reinterpret_cast<char *>(p) + size, static_cast<size_t>(raw + total - (reinterpret_cast<char *>(p) + size)));
+#endif
+      return b.obj;
+    }
+  fprintf(stderr, "obj_alloc: table full\n");
+  _exit(2);
+}
+inline void obj_free(void *p, bool vary) {
+  MonScope m;
+  if (!p) return;
+  if (!vary) { free(p); return; }
+  for (ObjBlock &b : g_objblocks)
+    if (b.obj == p) {
+#ifdef VF_ASAN_POISON
+      __asan_unpoison_memory_region(b.raw, b.total);
+#endif
+      free(b.raw);
+      b.obj = nullptr;
+      return;
+    }
+  fprintf(stderr, "obj_free: unknown object\n");
+  _exit(2);
+}
+
 // ---------------------------------------------------------------- global allocation hook (2.3)
 static uint64_t g_hooked_mallocs = 0;  // mallocs made by the library inside a monitored window
 static uint64_t g_hook_alive = 0;      // all mallocs seen by the hook (shows that the hook works)
